@@ -83,6 +83,92 @@ func (c *Ctx) gateType() (*types.Named, *ssa.Function) {
 	return nil, nil
 }
 
+// gateCtor finds a gate written as a constructor function of package sm: it takes the handler to protect and
+// returns a function literal with the handler signature that consults smpeer.FromContext and calls the captured
+// handler. Returns the constructor, the literal and the captured handler variable.
+func (c *Ctx) gateCtor() (*ssa.Function, *ssa.Function, *ssa.FreeVar) {
+	for _, g := range c.P.LibraryFuncs() {
+		if pkgOf(g) == nil || pkgOf(g).Path() != pkgSM || g.Parent() != nil || g.Signature.Results().Len() != 1 || !isHandlerish(g.Signature.Results().At(0).Type()) {
+			continue
+		}
+		var hp *ssa.Parameter
+		for _, p := range g.Params {
+			if isHandlerish(p.Type()) {
+				hp = p
+			}
+		}
+		if hp == nil {
+			continue
+		}
+		var lit *ssa.Function
+		var fv *ssa.FreeVar
+		ok := true
+		rvs := flow.ReturnValues(g, 0)
+		for _, rv := range rvs {
+			v := rv
+			for {
+				switch x := v.(type) {
+				case *ssa.ChangeType:
+					v = x.X
+					continue
+				case *ssa.MakeInterface:
+					v = x.X
+					continue
+				}
+				break
+			}
+			mc, isMC := v.(*ssa.MakeClosure)
+			if !isMC {
+				ok = false
+				break
+			}
+			fn := mc.Fn.(*ssa.Function)
+			if lit != nil && lit != fn {
+				ok = false
+				break
+			}
+			lit = fn
+			for i, b := range mc.Bindings {
+				if i >= len(fn.FreeVars) {
+					continue
+				}
+				if flow.Peel(b) == ssa.Value(hp) {
+					fv = fn.FreeVars[i]
+				}
+				// the parameter spilled to a cell for capture by reference: one store, of the parameter
+				if al, isAl := b.(*ssa.Alloc); isAl {
+					stores, fromParam := 0, false
+					for _, ref := range flow.Referrers(al) {
+						if st, isSt := ref.(*ssa.Store); isSt && st.Addr == ssa.Value(al) {
+							stores++
+							fromParam = fromParam || flow.Peel(st.Val) == ssa.Value(hp)
+						}
+					}
+					if stores == 1 && fromParam {
+						fv = fn.FreeVars[i]
+					}
+				}
+			}
+		}
+		if !ok || lit == nil || fv == nil || len(rvs) == 0 || len(lit.Params) != 2 {
+			continue
+		}
+		tests := false
+		flow.Instrs(lit, func(in ssa.Instruction) {
+			if ifi, ok := in.(*ssa.If); ok {
+				cond, _ := flow.Cond(ifi.Cond, true)
+				if _, ok := peerKnownTest(cond, 0); ok {
+					tests = true
+				}
+			}
+		})
+		if tests {
+			return g, lit, fv
+		}
+	}
+	return nil, nil, nil
+}
+
 func isMuxRegistration(ci ssa.CallInstruction) (string, bool) {
 	o := flow.CalleeObj(ci)
 	for _, n := range []string{"Handle", "HandleIdx", "HandleFunc"} {
@@ -135,6 +221,9 @@ func (c *Ctx) handlerOrigin(v ssa.Value, gate *types.Named, depth int, seen map[
 		return res
 	case *ssa.Call:
 		if g := flow.StaticCallee(x); g != nil && pkgOf(g) != nil && pkgOf(g).Path() == pkgSM {
+			if ctor, _, _ := c.gateCtor(); ctor != nil && g == ctor {
+				return "wrapped" // the gate written as a constructor: what it returns consults the handshake first
+			}
 			// a constructor of the gate: everything it returns is a gate value
 			if gate != nil && g.Blocks != nil {
 				rvs := flow.ReturnValues(g, 0)
@@ -238,9 +327,16 @@ func invokesHandler(f *ssa.Function) bool {
 func runC10(c *Ctx) {
 	r := c.R
 	gate, gateFn := c.gateType()
+	var gateFV *ssa.FreeVar
 	if gate == nil {
+		if ctor, lit, fv := c.gateCtor(); ctor != nil {
+			gateFn, gateFV = lit, fv
+			r.Role("GateCtor", fname(ctor))
+		}
+	}
+	if gate == nil && gateFV == nil {
 		r.Fail("R2", "role:gate-type", "-", "no func type in package sm whose ServeDIAM consults smpeer.FromContext: nothing gates application handlers on the handshake")
-	} else {
+	} else if gate != nil {
 		r.Role("GateType", gate.Obj().Name())
 	}
 
@@ -342,9 +438,29 @@ func runC10(c *Ctx) {
 	if gateFn != nil {
 		key := fname(gateFn) + ":wrapped-call"
 		var wrapped []*ssa.Call
+		// the connection and message parameters of the gate: after the receiver for a gate type, the literal's own
+		// two for a gate constructor
+		connIdx, msgIdx := 1, 2
+		if gateFV != nil {
+			connIdx, msgIdx = 0, 1
+		}
 		for _, ci := range flow.CallInstrs(gateFn) {
 			call, ok := ci.(*ssa.Call)
-			if !ok || call.Call.IsInvoke() || len(gateFn.Params) == 0 {
+			if !ok || len(gateFn.Params) == 0 {
+				continue
+			}
+			if gateFV != nil {
+				// the captured handler called directly, or its ServeDIAM invoked
+				cv := call.Call.Value
+				if ld, isLd := cv.(*ssa.UnOp); isLd && ld.Op == token.MUL {
+					cv = ld.X
+				}
+				if cv == ssa.Value(gateFV) {
+					wrapped = append(wrapped, call)
+				}
+				continue
+			}
+			if call.Call.IsInvoke() {
 				continue
 			}
 			if call.Call.Value == ssa.Value(gateFn.Params[0]) {
@@ -396,11 +512,11 @@ func runC10(c *Ctx) {
 					good, why = false, "the guard is not the ok result of smpeer.FromContext"
 				} else {
 					// argument is c.Context() of the conn parameter
-					if len(gateFn.Params) < 2 || !contextIsOfConn(ctx, gateFn.Params[1]) {
+					if len(gateFn.Params) <= msgIdx || !contextIsOfConn(ctx, gateFn.Params[connIdx]) {
 						good, why = false, "FromContext is not applied to the Context() of the connection the message arrived on"
 					}
 					// the wrapped call receives the same conn and message
-					if good && (len(w.Call.Args) != 2 || w.Call.Args[0] != ssa.Value(gateFn.Params[1]) || w.Call.Args[1] != ssa.Value(gateFn.Params[2])) {
+					if good && (len(w.Call.Args) != 2 || w.Call.Args[0] != ssa.Value(gateFn.Params[connIdx]) || w.Call.Args[1] != ssa.Value(gateFn.Params[msgIdx])) {
 						good, why = false, "the wrapped handler is not called with the gate's own (conn, message)"
 					}
 				}
